@@ -40,6 +40,7 @@ def run(ctx: Ctx) -> None:
     _memo.rule_isinstance_on_class(ctx, ['graphiq/solvers/evolutionary_solver.py', 'graphiq/solvers/hybrid_solvers.py'])
     _memo.rule_zip_truncation(ctx, ['graphiq/solvers/evolutionary_solver.py', 'graphiq/solvers/hybrid_solvers.py'])
     _memo.rule_search_fallthrough(ctx, ['graphiq/solvers/evolutionary_solver.py', 'graphiq/solvers/hybrid_solvers.py'])
+    _memo.rule_zip_pairing(ctx, ['graphiq/solvers/evolutionary_solver.py', 'graphiq/solvers/hybrid_solvers.py'])
     solvers.rule_twoqubit(ctx)
     solvers.rule_emission_first(ctx)
     from .c12 import rule_validate_shape
